@@ -51,6 +51,8 @@ struct Exec
 
 	void fail(std::string const& s) { R.fails.push_back(s); }
 	void tick() { if (++R.handlers > budget) throw abort_execution{ "handler budget exceeded" }; }
+	// request/response exchanges per connection: many for short messages (loss patterns that need several turnarounds), two for long ones
+	int pp_rounds() const { return LENS[p.len] <= MSS + 1 ? 8 : 2; }
 
 	void post_read(Side& me, Side& peer)
 	{
@@ -97,7 +99,7 @@ struct Exec
 		post_read(a, b); post_read(b, a);
 		int64_t L = LENS[p.len];
 		a.to_write = L; if (p.pat == BOTH_WAYS) b.to_write = L;
-		rounds_left = p.pat == PING_PONG ? 1 : 0;
+		rounds_left = p.pat == PING_PONG ? pp_rounds() - 1 : 0;
 		pump_write(a); pump_write(b);
 	}
 
@@ -120,14 +122,14 @@ struct Exec
 		nA.reset(new asio::io_context(*sim, addr("10.0.0.1"))); nB.reset(new asio::io_context(*sim, addr("10.0.1.1")));
 		acc.reset(new ip::tcp::acceptor(*nB)); acc->open(ip::tcp::v4()); acc->bind(ip::tcp::endpoint(addr("10.0.1.1"), 6000)); acc->listen();
 		cli.reset(new ip::tcp::socket(*nA)); srv.reset(new ip::tcp::socket(*nB));
-		budget = 40 * uint64_t(LENS[p.len] / 500 + 100) * (p.pat == ONE_WAY ? 1 : 2);
+		budget = 40 * uint64_t(LENS[p.len] / 500 + 100) * (p.pat == ONE_WAY ? 1 : 8);
 		acc->async_accept(*srv, [this](error_code const& ec) { tick(); if (ec) { fail("accept: " + ecs(ec)); return; } accepted = true; start(); });
 		cli->async_connect(ip::tcp::endpoint(addr("10.0.1.1"), 6000), [this](error_code const& ec) { tick(); if (ec) { fail("connect: " + ecs(ec)); return; } connected = true; start(); });
 		try { sim->run(); }
 		catch (abort_execution const& e) { fail(std::string("livelock: ") + e.why); }
 		R.t_end = now_ns();
 		int64_t L = LENS[p.len];
-		int64_t want_a = p.pat == PING_PONG ? 2 * L : L, want_b = p.pat == ONE_WAY ? 0 : (p.pat == PING_PONG ? 2 * L : L);
+		int64_t want_a = p.pat == PING_PONG ? pp_rounds() * L : L, want_b = p.pat == ONE_WAY ? 0 : (p.pat == PING_PONG ? pp_rounds() * L : L);
 		if (!connected || !accepted) fail(fmt("establish: connect %s, accept %s at quiescence", connected ? "completed" : "PENDING", accepted ? "completed" : "PENDING"));
 		else {
 			auto side = [&](const char* nm, Side& me, Side& peer, int64_t want) {
